@@ -28,7 +28,11 @@ pub fn run(seed: u64, tier: &str, out: &mut Out) {
         let pb = ProgressBar::with_draw_target(len, ProgressDrawTarget::term_like(Box::new(rec.clone()))).with_position(start_pos);
         let counter = std::sync::Arc::new(std::sync::atomic::AtomicU64::new(0));
         let c2 = counter.clone();
-        let tpl = if key == "custom" { "{custom}".to_string() } else { format!("{{{key}}}") };
+        // a third of the cases put the key on the second line of a template whose first line ends in a wide element
+        // (every key is rendered from scratch, whatever the line before it left behind)
+        let second_line = key != "wide_msg" && rng.chance(1, 3);
+        let ph = if key == "custom" { "{custom}".to_string() } else { format!("{{{key}}}") };
+        let tpl = if second_line { format!("x {{wide_msg}}\n{ph}") } else { ph };
         let style = ProgressStyle::with_template(&tpl).unwrap().tick_strings(&TICKS)
             .with_key("custom", move |s: &indicatif::ProgressState, w: &mut dyn std::fmt::Write| { c2.fetch_add(1, std::sync::atomic::Ordering::SeqCst); write!(w, "<{}|{:?}|{}>", s.pos(), s.len(), s.is_finished()).unwrap(); });
         pb.set_style(style);
